@@ -22,6 +22,7 @@ import (
 	"github.com/btcsuite/btcwallet/wtxmgr"
 
 	"verif/harness/internal/common"
+	"verif/harness/internal/mockchain"
 )
 
 // ---- Spend.tla behaviours (C06, C20) ----
@@ -46,6 +47,7 @@ type spArgs struct {
 	Ins   []int  `json:"ins"`
 	Elig  []int  `json:"elig"`
 	Sel   []int  `json:"sel"`
+	Forgotten []int `json:"forgotten"`
 }
 
 type spSend struct {
@@ -193,7 +195,7 @@ func replaySpend(idx int, line []byte, prop string, seed int, root string, rep *
 		}
 		if exp != nil {
 			w.observe(exp)
-			if st.Op == "Restart" {
+			if st.Op == "Restart" || st.Op == "RestartRej" {
 				w.checkResend(exp)
 			}
 		}
@@ -657,6 +659,28 @@ func (w *spWorld) apply(st *spStep, a *spArgs, rep *common.Report) error {
 		}
 	case "Restart":
 		return w.restart()
+	case "RestartRej":
+		// the backend has evicted created transaction #n (and, with it, everything spending its change) and
+		// rejects its re-broadcast for a reason the wallet has no special case for
+		target := w.sendTx[a.N]
+		if target == nil {
+			return fmt.Errorf("RestartRej: unknown send %d", a.N)
+		}
+		th := target.TxHash()
+		for _, k := range a.Forgotten {
+			if tx := w.sendTx[k]; tx != nil {
+				e.chain.DropFromMempool(tx.TxHash())
+			}
+		}
+		e.chain.SendAnswer = func(tx *wire.MsgTx) error {
+			if tx.TxHash() == th {
+				return errors.New("mock backend: transaction rejected: policy rule the wallet does not know (code 64)")
+			}
+			return mockchain.ErrDefaultAnswer
+		}
+		err := w.restart()
+		e.chain.SendAnswer = nil
+		return err
 	default:
 		return fmt.Errorf("unknown op %q", st.Op)
 	}
@@ -734,6 +758,8 @@ func (w *spWorld) observe(exp *spObs) {
 			want := "-1"
 			if f, ok := s.Status.(float64); ok && f > 0 {
 				want = fmt.Sprint(initialTip + int(f))
+			} else if ok && f < 0 {
+				want = "absent" // forgotten after a rejected re-broadcast
 			}
 			if got != want {
 				w.add("state", fmt.Sprintf("created transaction #%d recorded at height", i+1), got, want)
@@ -861,6 +887,8 @@ func (w *spWorld) observeHistory(exp *spObs) {
 		h := int32(-1)
 		if f, ok := s.Status.(float64); ok && f > 0 {
 			h = int32(initialTip + int(f))
+		} else if ok && f < 0 {
+			continue // forgotten
 		}
 		known[tx.TxHash()] = &want{fmt.Sprintf("created transaction #%d", i+1), h, tx}
 	}
